@@ -513,6 +513,26 @@ def delete_subscript(I, obj, idx, node):
     if isinstance(obj, ADict) and is_concrete(idx):
         obj.items.pop(concrete(idx), None)
         return
+    if isinstance(obj, AList) and is_concrete(idx) and isinstance(concrete(idx), int):
+        i = concrete(idx)
+        if not obj.unknown:
+            try:
+                del obj.items[i]
+            except IndexError:
+                from sa.interp import AbsRaise
+                raise AbsRaise(ExcValue('IndexError', site=node), site=node, explicit=False)
+            return
+        if i in (-1, 0):
+            if 'nonempty' not in getattr(obj, 'facts', ()) and not obj.items:
+                I.may_raise(node, ['IndexError'], 'del of an element of a list of unknown length', (obj,))
+            elif hasattr(obj, 'facts'):
+                obj.facts = set(obj.facts) - {'nonempty'}
+            if i == -1 and obj.items:
+                obj.items.pop()
+            return
+    if isinstance(obj, (AList, Unk)):
+        I.may_raise(node, ['IndexError', 'TypeError'], 'del of an element with unknown index', (obj, idx))
+        return
     raise AnalysisError('del subscript on %r' % (obj,))
 
 
